@@ -55,6 +55,45 @@ def to_smt2(pc, goal):
     return s.to_smt2()
 
 
+_SK = [0]
+
+
+def split_goal(goal, hyps=None, out=None, budget=None):
+    """skolemize universal goals, move antecedents to the hypotheses, split conjunctions: smaller and far more
+    stable queries than handing z3 `not (forall ...)`"""
+    hyps = hyps or []
+    out = out if out is not None else []
+    budget = budget or [48]
+    g = goal
+    if z3.is_quantifier(g) and g.is_forall() and budget[0] > 0:
+        n = g.num_vars()
+        sks = []
+        for i in range(n):
+            _SK[0] += 1
+            sks.append(z3.Const(f"sk_{g.var_name(i).split('?')[0]}!{_SK[0]}", g.var_sort(i)))
+        body = z3.substitute_vars(g.body(), *reversed(sks))
+        keep = []
+        for pi in range(g.num_patterns()):
+            pt = g.pattern(pi)
+            for t in (pt.children() if z3.is_app(pt) else []):
+                t2 = z3.substitute_vars(t, *reversed(sks))
+                hp = z3.Function("hint_" + str(t2.sort()).replace(" ", "_").replace("(", "").replace(")", "").replace(",", ""), t2.sort(), z3.BoolSort())
+                keep.append(hp(t2))        # keeps the trigger term of the goal alive after splitting
+        if g.num_patterns() == 0:
+            out.append((hyps, body)) if False else None
+            return split_goal(body, hyps, out, [0])      # no explicit trigger: keep the body whole
+        return split_goal(body, hyps + keep, out, budget)
+    if z3.is_implies(g) and budget[0] > 0:
+        return split_goal(g.arg(1), hyps + [g.arg(0)], out, budget)
+    if z3.is_and(g) and budget[0] > 1 and g.num_args() > 0:
+        budget[0] -= g.num_args() - 1
+        for c in g.children():
+            split_goal(c, hyps, out, budget)
+        return out
+    out.append((hyps, g))
+    return out
+
+
 def cover_smt2(pc):
     s = z3.Solver()
     for p in pc:
@@ -124,11 +163,13 @@ def assume_axioms(ex, fr):
 def run_path(fi, con, prefix):
     dec = Decider(prefix)
     ex = Ex(dec, con.qual)
+    ex.reveal = set(con.reveal)
     ob_extra = []
     status = "ok"
     try:
         fr = setup(ex, fi, con)
         assume_axioms(ex, fr)
+        ex.good_heap()
         is_init = fi.name == "__init__"
         ex.self_stack = [fr.self_val.t] if (fr.self_val is not None and fr.self_val.t is not None) else []
         speceval.assume_invariants(ex, fi, exclude=ex.self_stack if is_init else ())
@@ -226,7 +267,7 @@ def verify_function(qual):
             if r["error"]:
                 # an unsupported construct on an infeasible path does not matter
                 chk = z3.Solver()
-                chk.set("timeout", 10000)
+                chk.set("timeout", 3000)
                 chk.add(*ex.pc)
                 if chk.check() == z3.unsat:
                     out.notes.append(f"infeasible path {r['trace']} skipped ({r['error'][:80]})")
@@ -238,13 +279,14 @@ def verify_function(qual):
                 entry_cover_done = True
             out.covers.append((f"{qual}::cover::path{out.paths}:{r['kind']}", cover_smt2(ex.pc)))
             for ob in ex.obls:
-                s2 = to_smt2(ob.pc, ob.goal)
-                vc = VC(ob, s2)
-                key = (vc.name, vc.digest)
-                if key in seen:
-                    continue
-                seen[key] = vc
-                out.vcs.append(vc)
+                for extra, leaf in split_goal(ob.goal):
+                    s2 = to_smt2(list(ob.pc) + extra, leaf)
+                    vc = VC(ob, s2)
+                    key = (vc.name, vc.digest)
+                    if key in seen:
+                        continue
+                    seen[key] = vc
+                    out.vcs.append(vc)
     except Exception as e:        # internal error: never a violation
         out.error = f"internal error in pyvc: {type(e).__name__}: {e}\n{traceback.format_exc(limit=8)}"
         out.internal = True
@@ -267,8 +309,16 @@ def _solve(args):
         s.from_string(text)
         r = s.check()
         dt = time.time() - t0
+        rl = 0
+        try:
+            st_ = s.statistics()
+            for k_ in st_.keys():
+                if k_ == "rlimit count":
+                    rl = st_.get_key_value(k_)
+        except Exception:
+            pass
         if r == z3.unsat:
-            return (name, "unsat", "", None, dt)
+            return (name, "unsat", f"rlimit={rl}", None, dt)
         if r == z3.sat:
             return (name, "sat", "", _model_text(s), dt)
         reason = s.reason_unknown()
@@ -304,8 +354,8 @@ def _model_text(s, limit=6000):
 
 def discharge(vcs, covers, tier="quick", procs=None):
     """run every VC and cover; returns (vc results in place, cover results)"""
-    rlimit = 40_000_000 if tier == "quick" else 160_000_000
-    timeout = 60_000 if tier == "quick" else 240_000
+    rlimit = 400_000_000 if tier == "quick" else 1_600_000_000
+    timeout = 240_000 if tier == "quick" else 900_000
     jobs = [("vc", i, vc.smt2, rlimit, timeout) for i, vc in enumerate(vcs)]
     jobs += [("cover", f"c{i}", text, rlimit // 4, 20_000) for i, (nm, text) in enumerate(covers)]
     procs = procs or min(16, os.cpu_count() or 4)
